@@ -146,6 +146,9 @@ def run_case(case, ctx):
         vals = [r[fc] for r, s in zip(rows, sel) if s]
         a5, k5 = fresh_args()
         st5, got = ctx.call(getattr(d, 'find_' + fc), *a5, **k5)
+        if vals and all(_isnan(v) and v is vals[0] for v in vals):
+            # every selected row holds the very same NaN object: that is the unique value
+            ctx.check('find_unique', st5 == 'ok' and _isnan(got), lambda: 'find_%s over %d rows all holding one NaN object -> %s %r (expected that NaN)' % (fc, len(vals), st5, got))
         if not any(_isnan(v) for v in vals):
             distinct = []
             for v in vals:
@@ -196,6 +199,8 @@ def run_case(case, ctx):
 
 def gen_case(rng):
     n = rng.choice([0, 1, 2, 3, 4, 5, 6, 8, 12, 20])
+    if rng.random() < 0.02:
+        n = rng.choice([150, 260])        # long tables: any size-dependent path behind the selection
     names = rng.sample(rng.choice([['a', 'b', 'c', 'd'], ['a', 'b', 'c', 'd'], ['rate', 'rate_type', 'day_count', 'day'], ['data', 'columns', 'x', 'key']]), rng.randint(1, 3))
     kinds = {c: rng.choice(['nifs', 'if', 'nf', 's', 'ns', 'nifs']) for c in names}
     cols = {c: [gen.cell(rng, nan=0.15 if 'f' in kinds[c] else 0, kinds=kinds[c]) for _ in range(n)] for c in names}
@@ -238,6 +243,10 @@ def gen_case(rng):
                 v = {'$nan': rng.choice([5, 'np'])}
             else:
                 v = {'$re': rng.choice(['x', 'y', '1', 'n', '.*', '^$', 'o', '2', '\\.'])}
+                if rng.random() < 0.4:
+                    v = {'$re': [v['$re'], 2]}          # the same pattern text, case-insensitive (re.I)
+                if rng.random() < 0.5:
+                    cols[c] = [(x.upper() if isinstance(x, str) and rng.random() < 0.5 else x) for x in cols[c]]
             kw[c] = v
         cond = {'kw': kw, 'as': rng.choice(['kw', 'kw', 'dict', 'split', 'two_dicts'])}
     case = {'cols': cols, 'cond': cond}
